@@ -135,3 +135,19 @@ ack_msg_produced = REG.add(Contract(
                    body_ensures=lambda S, a: [("EVERY spy of the topic receives the message", S.eq(a.ghost.told, a.spy))])},
     loop_ghost={1: ["told"]},
 ))
+
+
+# --------------------------------------------------------------------------------------
+# PostOffice._message_may_come: a reader stops only when nothing more can come
+# --------------------------------------------------------------------------------------
+message_may_come = REG.add(Contract(
+    FP, "PostOffice._message_may_come",
+    params=dict(self="V", topic="V", msg_number="int"),
+    ensures=lambda S, a, r: [
+        ("a reader is told that message n will never come exactly when the topic is exhausted and n is beyond the last message "
+         "produced (so the last produced message is still delivered to a lagging reader)",
+         S.Iff(S.Not(r if z3.is_bool(r) else S.truthy(r)),
+               S.And(S.contains(S.attr(a.self, "_exhausted_topics"), a.topic),
+                     a.msg_number > S.to_int(S.getitem(S.attr(a.self, "_last_msg_produced"), a.topic)))))],
+    raises={},
+))
